@@ -159,7 +159,9 @@ def collect(out, job, run, m, ident, nontriv_fn=None, extra=None):
     for v in mine:
         v = dict(v)
         v["workload"] = job.get("name", job.get("fn"))
-        v["job"] = dict({k: job[k] for k in job if k not in ("lo", "hi")}, only=list(ident), lo=ident[0], hi=ident[0] + 1)
+        v["origin"] = dict({k: job[k] for k in job if k not in ("lo", "hi", "case")}, only=list(ident))
+        v["job"] = dict(fn="replay_case", mod=job["mod"], prop=prop, name=job.get("name", job.get("fn")),
+                        flags=job.get("flags"), case=export_case(run, m))
         v["wf"] = run.wf
         v["inputs"] = run.inputs
         v["script"] = run.script
@@ -173,3 +175,24 @@ def collect(out, job, run, m, ident, nontriv_fn=None, extra=None):
                                    final_status=run.status(), output=run.c.get_workflow_output(),
                                    monitor_verdict="%d violation(s) of %s" % (len(mine), prop),
                                    observed=[list(map(str, t)) for t in run.trace][:60]))
+
+
+def export_case(run, m):
+    return dict(wf=run.wf, inputs=run.inputs, oseed=run.outcomes.seed, p_fail=run.outcomes.p_fail,
+                overrides=run.outcomes.overrides, script=run.script, model=(m.to_json() if m is not None else None),
+                ack_chain=run.ack_chain)
+
+
+def replay_case(job):
+    """re-execute one explicit case (definition, inputs, outcomes, history script) under the monitors"""
+    pmod = importlib.import_module(job["mod"])
+    nontriv_fn = getattr(pmod, "nontrivial", None)
+    out = dict(evaluations=0, nontrivial=set(), violations=[], samples=[], counters={}, sets={})
+    case = job["case"]
+    m = defs.Model.from_json(case["model"]) if case.get("model") else None
+    run = explore.make_run(case, monitors(job.get("flags")), model=m, ack_chain=case.get("ack_chain", False))
+    explore.play_script(run, case["script"])
+    run.finish()
+    out["evaluations"] += 1
+    collect(out, job, run, m, (0, 0), nontriv_fn)
+    return out
